@@ -1081,7 +1081,7 @@ def eval_cases(cases):
     for c in run:
         rs = [impl.get(c["id"] + "_l")] + [impl.get(q) for q in c["qids"]]
         if any(r is None or r == "hang" or r.startswith("timeout") or r.startswith("skipped") for r in rs):
-            impl.update(run_impl_guarded([c["impl"]], per_line_timeout=75.0, jobs=1, env={"SV_TIMEOUT_MS": "60000"}))
+            impl.update(run_impl_guarded([c["impl"]], per_line_timeout=40.0, jobs=1, env={"SV_TIMEOUT_MS": "30000"}))
     return model, impl
 
 
@@ -1198,7 +1198,7 @@ def run(ctx):
     else:
         cases = [rebuild_case(c) for c in diff.load_corpus("C07")]
         cases += directed_cases()
-        n = 500 if tier == "quick" else 9000
+        n = 500 if tier == "quick" else 6000
         n = int(os.environ.get("C07_N", n))
         cases += [gen_case(rng, "c%d" % i) for i in range(n)]
     # 1. the model first
@@ -1231,8 +1231,11 @@ def run(ctx):
         if any(r is None or r == "hang" or r.startswith("timeout") or r.startswith("skipped") or r.startswith("abort")
                for r in rs):
             # a loaded machine makes the watchdogs fire: believe a hang only after a serial re-run
+            # (bounded: a badly broken tree must not make the check run for ever)
+            if retried >= (8 if tier == "quick" else 20):
+                continue
             retried += 1
-            impl.update(run_impl_guarded([c["impl"]], per_line_timeout=75.0, jobs=1, env={"SV_TIMEOUT_MS": "60000"}))
+            impl.update(run_impl_guarded([c["impl"]], per_line_timeout=40.0, jobs=1, env={"SV_TIMEOUT_MS": "30000"}))
     # 3. judge
     agree = 0
     evaluations = 0
@@ -1279,7 +1282,7 @@ def run(ctx):
                 skipped[st] += 1
     # 4. classify the failing cases; shrink a few unexplained ones
     findings = []
-    cls = classify(failing) if failing else {}
+    cls = classify(failing[:40]) if failing else {}      # bounded: a badly broken tree fails everywhere
     shrunk = 0
     for i, (c, k, problem, mres) in enumerate(failing):
         qid = c["qids"][k]
